@@ -4,6 +4,7 @@ package main
 
 import (
 	"fmt"
+	"strconv"
 	"go/ast"
 	"go/token"
 	"go/types"
@@ -959,8 +960,64 @@ func (fx *Fx) specBuiltin(st *State, call *ast.CallExpr) ([]Val, bool) {
 			delete(st.bound, name)
 		}
 		return []Val{r}, true
+	case "incase":
+		// incase(k): the k-th case of the innermost select was taken in this iteration
+		k := fx.eval(st, call.Args[0], true).X
+		g, ok := st.ghost["selcase"]
+		if ok && g.X == k {
+			return boolV("true"), true
+		}
+		return boolV("false"), true
+	case "chclosed", "chcap", "chbuffered":
+		a := fx.eval(st, call.Args[0], true)
+		cell := fx.chanCell(st, a.X)
+		switch id.Name {
+		case "chclosed":
+			return boolV(app("ch_closed", cell)), true
+		case "chcap":
+			return intV(app("ch_cap", cell)), true
+		}
+		return intV(app("ch_buffered", cell)), true
+	case "reached":
+		// reached(N): loop N was left through its guard on this path
+		ord, _ := strconv.Atoi(fx.eval(st, call.Args[0], true).X)
+		if st.loopExit != nil && st.loopExit[ord] != nil {
+			return boolV("true"), true
+		}
+		return boolV("false"), true
+	case "atexit":
+		// atexit(N, e): value of e when loop N was left through its guard
+		ord, _ := strconv.Atoi(fx.eval(st, call.Args[0], true).X)
+		if st.loopExit == nil || st.loopExit[ord] == nil {
+			panic(unsupported("atexit: loop was not left through its guard on this path (guard the clause with reached(N))"))
+		}
+		o := st.loopExit[ord].clone()
+		o.bound = st.bound
+		o.old = st.old
+		n0 := len(o.pc)
+		v := fx.eval(o, call.Args[1], true)
+		for _, a := range o.pc[n0:] {
+			st.assume(a)
+		}
+		return []Val{v}, true
+	case "prev":
+		if st.iterHead == nil {
+			panic(unsupported("prev() outside a loop step clause"))
+		}
+		o := st.iterHead.clone()
+		o.bound = st.bound
+		o.old = st.old
+		n0 := len(o.pc)
+		v := fx.eval(o, call.Args[0], true)
+		for _, a := range o.pc[n0:] {
+			st.assume(a)
+		}
+		return []Val{v}, true
 	case "imp":
 		a := fx.boolTerm(st, call.Args[0], true)
+		if a == "false" {
+			return boolV("true"), true // (the consequent may not even be evaluable on this path)
+		}
 		b := fx.boolTerm(st, call.Args[1], true)
 		return boolV(implies(a, b)), true
 	case "iff":
@@ -1161,6 +1218,9 @@ func (fx *Fx) specBuiltin(st *State, call *ast.CallExpr) ([]Val, bool) {
 			panic(unsupported("hastype " + name))
 		}
 		return boolV(and(not(app("=", a.X, "nil")), app("=", app("dyntype", a.X), fmt.Sprint(fx.v.typeID(t))))), true
+	case "scmax":
+		a := fx.eval(st, call.Args[0], true)
+		return intV(app("sc_max", fx.scannerCell(st, a.X))), true
 	case "scdone", "scerr", "sctok", "scstarted":
 		a := fx.eval(st, call.Args[0], true)
 		c := fx.scannerCell(st, a.X)
